@@ -268,6 +268,9 @@ public:
      * \param rhs The PDUOption to be copied.
      */
     PDUOption& operator=(const PDUOption& rhs) {
+        if (this == &rhs) {
+            return *this;
+        }
         option_ = rhs.option_;
         size_ = rhs.size_;
         if (real_size_ > small_buffer_size) {
